@@ -226,7 +226,10 @@ EntityTranslation RSForm::DeleteDuplicatesInternal() {
           }
           std::string copyAlias = rsCst2.alias;
           if (EraseInternal(copy)) {
-            translation.Insert(copy, original);
+            // Note: earlier duplicates mapped onto this copy should follow it to the new original
+            EntityTranslation step{};
+            step.Insert(copy, original);
+            translation.SuperposeWith(step);
             core.TranslateAll(CreateTranslator({ { copyAlias, rsCst1.alias } }));
             flag = true;
             break;
